@@ -2,6 +2,7 @@
 import random
 
 import model
+import monitors
 import scenario as S
 from sim import run_scenario
 
@@ -28,6 +29,16 @@ ASSUMPTIONS = ["devices are deterministic functions of (their history, time, inp
 
 def compare_obs(a, b, what, scn, res, extra):
     oa, ob = model.observations(a["trace"]), model.observations(b["trace"])
+    if scn.get("noop_ticks_possible"):
+        # a schedule may contain additional ticks in which no device is updated; the runs stop after the same
+        # NUMBER of master ticks, so compare up to the simulation time both have passed
+        def last(r):
+            tid = monitors.master_tid(r)
+            ts = [e["time"] for e in r["trace"].of("t-done") if e["tid"] == tid]
+            return ts[-1] if ts else -1
+        h = min(last(a), last(b))
+        oa = {d: [o for o in v if o[0] < h] for d, v in oa.items()}
+        ob = {d: [o for o in v if o[0] < h] for d, v in ob.items()}
     for d in sorted(set(oa) | set(ob)):
         if oa.get(d, []) != ob.get(d, []):
             x, y = oa.get(d, []), ob.get(d, [])
@@ -73,6 +84,17 @@ def run(tier, seed, drv):
                                      "components": [dev("X", {"i": ["external", "x"]}), dev("Y", {"i": ["X", "o"]}), dev("Z")]},
                                     dev("SINK", {"i": ["SYS", "y"]})],
                      "n_ticks": 6, "stims": [{"real": t * 1_000_000 + 333, "comp": rng.choice(["X", "Y", "Z", "SINK"])} for t in times]})
+    # two interrupts at the same instant on two UNWIRED devices inside one system: depending on the delivery
+    # order the system is interrupted twice and the second tick finds nothing left to do (it must still
+    # complete); every device is updated once at that instant whatever the order
+    for k in range(4 if tier == "quick" else 24):
+        t1 = rng.randrange(1, 18) * 1_000_000 + 333
+        scns.append({"components": [dev("SRC", cb={"kind": "period", "p": 2 * P}),
+                                    {"name": "SYS", "kind": "sys", "inputs": {"x": ["SRC", "o"]}, "expose": {"y": ["Y", "o"]},
+                                     "components": [dev("X", {"i": ["external", "x"]}), dev("Y", {"i": ["X", "o"]}), dev("Z"), dev("W")]},
+                                    dev("SINK", {"i": ["SYS", "y"]})],
+                     "n_ticks": 7, "noop_ticks_possible": True,
+                     "stims": [{"real": t1, "comp": "Z"}, {"real": t1, "comp": "W"}, {"real": t1 + 25_000_000, "comp": rng.choice(["Z", "W"])}]})
     for i, scn in enumerate(scns):
         SC.stats_into(res, scn)
         base = run_scenario(scn, bus="sync")
